@@ -13,6 +13,11 @@ R4 independent loads: the database getters used by loaders hand out deep copies 
    the same row never alias nested containers.
 R5 builder copy: WorkflowBuilder.add_port/add_step do not assign persistent ids, a deep-copied workflow loses its id,
    a re-loaded step is reset to WAITING / not terminated.
+R7 relations are saved on every save: `Step.save` records the step's input and output port dependencies and
+   `Workflow.save` saves every port and every step on *every* normal path (also when the entity already has a
+   persistent id: wiring or members added after the first save must reach the database), and no function of the
+   persistence package that produces row values is memoised (`functools.lru_cache` / `cache`): a memoised decoder
+   hands the same mutable container to every load.
 """
 
 from __future__ import annotations
@@ -445,11 +450,97 @@ def r6(ctx):
         ctx.ob("R6", f"{p.cls(cq).name}.load examined for double restoration", True, func=ld, node=ld.node, instance="double-restore:examined", trivial=True)
 
 
-RULES = [("R1", r1), ("R2", r2), ("R3", r3), ("R4", r4), ("R5", r5), ("R6", r6)]
-FLOORS = {"R1": 400, "R2": 70, "R3": 30, "R4": 5, "R5": 6, "R6": 3}
+def r7(ctx):
+    p = ctx.prog
+    # (a) Step.save: add_dependency for INPUT over the input ports and OUTPUT over the output ports, on every path
+    for q in ["streamflow.core.workflow.Step", *p.subclasses("streamflow.core.workflow.Step")]:
+        c = p.classes.get(q)
+        f = c.methods.get("save") if c is not None else None
+        if f is None:
+            continue
+        g = f.cfg
+        deps = {}
+        for n in g.nodes.values():
+            for call in n.calls():
+                if isinstance(call.func, ast.Attribute) and call.func.attr == "add_dependency":
+                    kw = {k.arg: unparse(k.value) for k in call.keywords}
+                    kind = kw.get("type", "")
+                    # the iterable the enclosing comprehension / loop ranges over
+                    src = ""
+                    for a in __import__("sfverif.model", fromlist=["ancestors"]).ancestors(call):
+                        if isinstance(a, (ast.GeneratorExp, ast.ListComp, ast.SetComp)):
+                            src = unparse(a.generators[0].iter)
+                            break
+                        if isinstance(a, (ast.For, ast.AsyncFor)):
+                            src = unparse(a.iter)
+                            break
+                    deps.setdefault(n.id, []).append((kind, src))
+        for role, getter in (("INPUT", "get_input_ports"), ("OUTPUT", "get_output_ports")):
+            ids = [i for i, lst in deps.items() if any(k.endswith(role) and getter in s_ for k, s_ in lst)]
+            esc = g.escape(g.entry, ids) if ids else [g.entry, g.exit]
+            ctx.ob("R7", f"{c.name}.save records the {role} dependencies of the step on every path", bool(ids) and esc is None, func=f, node=f.node,
+                   instance=f"{q}.save:{role}",
+                   message=f"{c.name}.save can return without writing the step's {role} port dependencies (e.g. for a step that already has a persistent id): "
+                           "wiring added after the first save is lost and the loaded workflow has dangling ports",
+                   witness=g.describe(esc) if esc else [])
+    # (b) Workflow.save: every port and every step saved on every path
+    for q in ["streamflow.core.workflow.Workflow", *p.subclasses("streamflow.core.workflow.Workflow")]:
+        c = p.classes.get(q)
+        f = c.methods.get("save") if c is not None else None
+        if f is None:
+            continue
+        g = f.cfg
+        for member in ("ports", "steps"):
+            ids = []
+            for n in g.nodes.values():
+                for call in n.calls():
+                    if isinstance(call.func, ast.Attribute) and call.func.attr == "save":
+                        for a in __import__("sfverif.model", fromlist=["ancestors"]).ancestors(call):
+                            it = a.generators[0].iter if isinstance(a, (ast.GeneratorExp, ast.ListComp, ast.SetComp)) else (a.iter if isinstance(a, (ast.For, ast.AsyncFor)) else None)
+                            if it is not None:
+                                if unparse(it) in (f"self.{member}.values()", f"list(self.{member}.values())", f"tuple(self.{member}.values())"):
+                                    ids.append(n.id)
+                                break
+            esc = g.escape(g.entry, ids) if ids else [g.entry, g.exit]
+            ctx.ob("R7", f"{c.name}.save saves every member of self.{member} on every path", bool(ids) and esc is None, func=f, node=f.node,
+                   instance=f"{q}.save:{member}",
+                   message=f"{c.name}.save can return without saving self.{member} (e.g. for a workflow that already has a persistent id): members added later are never stored",
+                   witness=g.describe(esc) if esc else [])
+    # (c) no memoised value producers in the persistence package
+    for m in p.modules.values():
+        if not m.relpath.startswith("streamflow/persistence/"):
+            continue
+        funcs = [f for f in p.all_funcs() if f.file == m.relpath]
+        if not funcs:
+            continue
+        memo = []
+        for f in funcs:
+            for d in f.decorators:
+                name = (unparse(d.func) if isinstance(d, ast.Call) else unparse(d)).split(".")[-1]
+                if name in ("lru_cache", "cache", "cached_property"):
+                    memo.append(f)
+        bad = memo[0] if memo else None
+        ctx.ob("R7", f"no function of {m.relpath} is memoised with a functools cache", not memo, func=bad or funcs[0], node=(bad or funcs[0]).node,
+               instance=f"memoised:{m.relpath}:{bad.qualname if bad else ''}",
+               message=(f"{bad.qualname} is memoised (functools cache): every caller receives the same mutable object, so two loads of one record share "
+                        "their containers and a change made through one loaded entity shows up in the others") if bad else "")
+
+
+RULES = [("R1", r1), ("R2", r2), ("R3", r3), ("R4", r4), ("R5", r5), ("R6", r6), ("R7", r7)]
+FLOORS = {"R1": 400, "R2": 70, "R3": 30, "R4": 5, "R5": 6, "R6": 3, "R7": 7}
 
 G = "streamflow.workflow.step.GatherStep"
 VARIANTS = [
+    V("Step.save returns early once persisted", CORE, "streamflow.core.workflow.Step.save",
+      "if self.persistent_id is None:\n        if self._saving is not None:", "if self.persistent_id is not None:\n        return\n    if True:\n        if self._saving is not None:", "R7", control=True),
+    V("Step.save writes only the input dependencies", CORE, "streamflow.core.workflow.Step.save", "DependencyType.OUTPUT", "DependencyType.INPUT", "R7"),
+    V("Step.save iterates the input ports twice", CORE, "streamflow.core.workflow.Step.save", "self.get_output_ports().items()", "self.get_input_ports().items()", "R7"),
+    V("Workflow.save skips the members of a persisted workflow", CORE, "streamflow.core.workflow.Workflow.save",
+      "if self.persistent_id is None:\n        if self._saving is not None:", "if self.persistent_id is not None:\n        return\n    if True:\n        if self._saving is not None:", "R7"),
+    V("memoised JSON decoding of rows", "streamflow/persistence/sqlite.py", None, "def _load_keys(", "@functools.lru_cache(maxsize=1024)\ndef _load_keys(", "R7"),
+    V("Step.save with a guard clause only around the insert (benign)", CORE, "streamflow.core.workflow.Step.save",
+      "if self.persistent_id is None:\n        if self._saving is not None:", "missing = self.persistent_id is None\n    if missing:\n        if self._saving is not None:", None),
+
     V("GatherStep: key renamed on the save side", STEPF, f"{G}._save_additional_params", "'depth': self.depth", "'gather_depth': self.depth", "R1", control=True),
     V("GatherStep: key renamed on the load side", STEPF, f"{G}._load", "params['depth']", "params['level']", "R1"),
     V("GatherStep: depth saved from another attribute", STEPF, f"{G}._save_additional_params", "'depth': self.depth", "'depth': len(self.size_map)", "R1"),
